@@ -57,17 +57,25 @@ L2_QUERY = ["RModel.Impl.containsQ_spec", "RModel.Impl.rankQ_spec", "RModel.Impl
             "RModel.Impl.maximumQ_spec", "RModel.Impl.cardInRangeQ_spec", "RModel.Impl.getCardinalityQ_spec"]
 L2_NBRQ = ["RModel.Impl.nextValueQ_spec", "RModel.Impl.previousValueQ_spec", "RModel.Impl.nextAbsentValueQ_spec",
            "RModel.Impl.previousAbsentValueQ_spec"]
+L2_MUT = ["RModel.Impl.toBSet_iaddRM", "RModel.Impl.toBSet_iremoveRM", "RModel.Impl.toBSet_iadd", "RModel.Impl.toBSet_iremove",
+          "RModel.Impl.iadd_bool_mem", "RModel.Impl.iremove_bool_mem", "RModel.Impl.toBSet_iaddRange",
+          "RModel.Impl.toBSet_iremoveRange", "RModel.Impl.toBSet_notRange", "RModel.Impl.toBSet_inotRange"]
+L2_MUT_WF = ["RModel.Impl.wf_iaddRM", "RModel.Impl.wf_iremoveRM", "RModel.Impl.wf_iaddRange", "RModel.Impl.wf_iremoveRange",
+             "RModel.Impl.wf_notRange", "RModel.Impl.wf_inotRange", "RModel.Impl.wf_iand2", "RModel.Impl.wf_ior2",
+             "RModel.Impl.wf_ixor2", "RModel.Impl.wf_iandNot2"]
+L2_IBIN = ["RModel.Impl.toBSet_iand2", "RModel.Impl.toBSet_ior2", "RModel.Impl.toBSet_ixor2", "RModel.Impl.toBSet_iandNot2"]
 L1_XFORM = ["RModel.BSet.mem_shift", "RModel.BSet.canon_shift", "RModel.BSet.mem_flipRange", "RModel.BSet.canon_xor"]
 
 PROPS = {
-    "C01": {"suites": [("alg", 1.0), ("kern", 0.3), ("kernspecial", 1.0), ("kernthresh", 0.5), ("popcnt", 1.0), ("kernl2", 0.5), ("l2rep", 0.5)],
-            "theorems": L1_ALGEBRA + F_THRESH + L2_CONT + L2_REP,
-            "modules": DEFAULT_MODULES + [FACTS, "RProofs.ContOps", "RProofs.RepOps"],
+    "C01": {"suites": [("alg", 1.0), ("kern", 0.3), ("kernspecial", 1.0), ("kernthresh", 0.5), ("popcnt", 1.0), ("kernl2", 0.5), ("l2rep", 0.5), ("kernmutbin", 0.3)],
+            "theorems": L1_ALGEBRA + F_THRESH + L2_CONT + L2_REP + L2_IBIN,
+            "modules": DEFAULT_MODULES + [FACTS, "RProofs.ContOps", "RProofs.RepOps", "RProofs.ContMut"],
             "owns": {"and", "or", "xor", "andnot", "iand", "ior", "ixor", "iandnot", "andcard", "orcard", "isect", "eq", "dig",
                      "kern", "popcnt", "l2op"}},
-    "C02": {"suites": [("hist", 1.0)], "theorems": L1_MUT + L1_ALGEBRA[:3] + F_THRESH, "modules": DEFAULT_MODULES + [FACTS],
+    "C02": {"suites": [("hist", 1.0), ("kernmut", 0.4)], "theorems": L1_MUT + L1_ALGEBRA[:3] + F_THRESH + L2_MUT,
+            "modules": DEFAULT_MODULES + [FACTS, "RProofs.ContMut"],
             "owns": {"new", "add", "cadd", "addint", "addmany", "rem", "crem", "addr", "remr", "flip", "clear", "opt", "clone",
-                     "cowclone", "detach", "setcow", "dig", "card", "empty", "of"}},
+                     "cowclone", "detach", "setcow", "dig", "card", "empty", "of", "kern"}},
     "C03": {"suites": [("query", 1.0), ("kernq", 0.3), ("eqpairs", 0.5), ("kernq2", 0.3)], "theorems": L1_QUERY + L2_QUERY,
             "modules": DEFAULT_MODULES + ["RProofs.ContQuery", "RProofs.ContQueryNumRuns"],
             "owns": {"card", "empty", "has", "min", "max", "rank", "sel", "cir", "iwi", "eq", "toarr", "toexarr", "chkeq", "dig", "kern", "mkrepr"}},
@@ -100,9 +108,9 @@ PROPS = {
             "theorems": ["RModel.Impl.safe_unflagged_not_foreign", "RModel.Impl.safe_addZeroCopy", "RModel.Impl.gate_not_foreign",
                          "RModel.Impl.detach_no_foreign'", "RModel.Impl.safe_reachable", "RModel.Impl.hdrLocal_run"],
             "owns": None},
-    "C09": {"suites": [("hist", 1.0), ("alg", 0.7), ("xform", 0.7), ("ser", 0.5), ("kernwf", 1.0), ("kernthresh", 1.0), ("thresh", 0.5), ("agg", 0.5), ("kernl2", 0.5), ("l2rep", 0.3)],
-            "theorems": ["RModel.Impl.wf_implies_validate", "RModel.Impl.validate_implies_wf_of_decoded", "RModel.BSet.canon_ext"] + F_THRESH + L2_CONT[4:8] + L2_REP[5:],
-            "modules": DEFAULT_MODULES + [FACTS, "RProofs.Properties.C09", "RProofs.ContOps", "RProofs.RepOps"],
+    "C09": {"suites": [("hist", 1.0), ("alg", 0.7), ("xform", 0.7), ("ser", 0.5), ("kernwf", 1.0), ("kernthresh", 1.0), ("thresh", 0.5), ("agg", 0.5), ("kernl2", 0.5), ("l2rep", 0.3), ("kernmut", 0.3)],
+            "theorems": ["RModel.Impl.wf_implies_validate", "RModel.Impl.validate_implies_wf_of_decoded", "RModel.BSet.canon_ext"] + F_THRESH + L2_CONT[4:8] + L2_REP[5:] + L2_MUT_WF,
+            "modules": DEFAULT_MODULES + [FACTS, "RProofs.Properties.C09", "RProofs.ContOps", "RProofs.RepOps", "RProofs.ContMut"],
             # a library-written stream read back must validate: `rd` lines whose Go side reports an invalid bitmap are C09's
             "owns_fn": lambda op, mm, suite: op in ("wf", "kernwf", "l2op") or (op == "rd" and "invalid:" in mm.get("got", "")),
             "owns": {"wf", "kernwf"}},
